@@ -1237,13 +1237,9 @@ class System:
                             eff += [100.0]
                         else:
                             eff += [100 * p / (p + l)]
-                        w = list(set(df[filt]["Warnings"].tolist()))
-                        if len(w) > 1:
-                            if "" in w:
-                                w.remove("")
-                            warn += [", ".join(w)]
-                        else:
-                            warn += [""]
+                        w = set(df[filt]["Warnings"].tolist())
+                        w.discard("")
+                        warn += [", ".join(sorted(w))]
                 if phase_list != [""]:
                     res["Phase"] = phases
                 res["Rail"] = rail
